@@ -77,7 +77,7 @@ def cutLine (d : Bytes) : String :=
 def handle : Handler
   | ["ttape", h] => (parseHex h).map fun d => tapeLine d false
   | ["ttapeoff", h] => (parseHex h).map fun d => tapeLine d true
-  | ["tfaith", h, _, _] => (parseHex h).map fun d => tapeLine d false
+  | ["tfaith", h, _] => (parseHex h).map fun d => tapeLine d false
   | ["treuse", _, h] => (parseHex h).map fun d => tapeLine d false
   | ["tlay", ha, hb, hc] => do
       let a ← parseHex ha
